@@ -22,7 +22,7 @@ CHECKS = {
             "sparse-grid space (exact integral, exact off-grid interpolation, combined quadrature rule) are decided, plus point-set, "
             "coefficient-sum and point-count equalities against a reference sparse grid; object reuse: all pairs/triples of level ranges and "
             "every public plot/print/export helper called between two operations on ONE object.",
-            "d<=3 (thorough 4), lmax<=5/4/3; float-exact boxes; tolerance 1e-12.",
+            "d<=3 (thorough 4), lmax<=5/4/3; float-exact boxes plus 11 boxes with non-dyadic bounds (point sets matched as a bijection within 16 ulp); tolerance 1e-12.",
             "exhaustive configuration lattice, basis-function oracle (linearity)"),
     "C03": ("DESIGN.md 2/C03",
             "Explicit-state BFS over refinement-decision histories of the real dimension-wise strategy (scripted ErrorCalculator, "
@@ -43,7 +43,7 @@ CHECKS = {
             "extend-split (version 0) strategies; in every state the reported value is compared with the coefficient-weighted sum "
             "over fresh grid objects, with evaluate_final_combi(), with the same history run with reevaluate_at_end=True / "
             "recalculate_frequently=True, with the same history ended by its time budget (virtual clock seam), with solutions_storage and, at EVERY evaluation, with sum w f(p) over get_points_and_weights(); "
-            "other grid families (high-order, Lagrange, B-spline, Romberg, Simpson) under the dimension-wise and extend-split strategies.",
+            "other grid families (high-order, Lagrange, B-spline, Romberg, Simpson) under the dimension-wise and extend-split strategies; every earlier stop of an extend-split history re-evaluated (evaluate_final_combi) and then continued.",
             "Bounds d<=3, D<=2..3, s<=2; relative tolerance 1e-11; integrand menu carried as one vector-valued function.",
             "explicit-state BFS over decision histories + exhaustive configuration lattice, differential oracle"),
     "C06": ("DESIGN.md 2/C06",
@@ -63,7 +63,7 @@ CHECKS = {
             "Complete lattice grid family (10) x d(1,2) x level vector x dyadic sub-box (touching left/right/both/no end) of two domains; "
             "announced point numbers, containment, weight sums and every tensor monomial up to the nominal degree; trapezoid "
             "boundary-off contract against boundary-on minus global boundary points; point/weight-count contract with boundary off for Simpson, "
-            "Clenshaw-Curtis, Leja; MixedGrid and per-dimension boundary flags against the per-dimension product; object reuse.",
+            "Clenshaw-Curtis, Leja; MixedGrid and per-dimension boundary flags against the per-dimension product; object reuse (all pairs/triples of requests on one object, refused requests in between, caller-owned start/end/level objects overwritten in place).",
             "levels <=4 (1D), <=2..4 (2D); nominal degrees as in the statement; known finding: level 0 one-sided boxes with boundary off.",
             "exhaustive input lattice, closed-form oracle"),
     "C09": ("DESIGN.md 2/C09",
@@ -85,7 +85,7 @@ CHECKS = {
     "C11": ("DESIGN.md 2/C11",
             "Every dyadic tree (depth<=4, Catalan <=6/8) on three intervals x all 24 grouping/slice/container/balancing variants, all "
             "balanced trees for the balanced grid, all ordered pairs of small trees through the cached GlobalRombergGrid, all operation "
-            "sequences of length<=3 on the GridBinaryTree singleton.",
+            "sequences of length<=3 on the GridBinaryTree singleton; refused grids (exception caught by the caller) between two valid requests on cached, uncached and plain ExtrapolationGrid objects.",
             "known finding: SIMPSON_ROMBERG containers with >=2 slices (weights do not sum to the length).",
             "exhaustive tree enumeration + operation sequences on the singleton, moment oracle"),
     "C12": ("DESIGN.md 2/C12",
@@ -99,7 +99,7 @@ CHECKS = {
     "C13": ("DESIGN.md 2/C13",
             "Exhaustive lattice of limit configurations (tol x min_evaluations x max_evaluations built from the point counts of an "
             "unlimited baseline, every boundary case) x strategy x integrand x norm, each a complete run of the real adaptive loop "
-            "with the real estimator, compared step by step with a reference model of the loop; distinct-evaluation counter "
+            "with the real estimator (integrands incl. two whose refinement benefits are all exactly zero while the error stays above the tolerance), compared step by step with a reference model of the loop; distinct-evaluation counter "
             "kept by the harness-side integrand.",
             "d=2; eleven strategy variants (incl. a non-nested grid family and periodic recalculation); two-phase runs (incl. reevaluate_at_end in the first phase); time budgets "
             "through a virtual clock owned by the explorer (mc/clock.py).",
@@ -134,23 +134,23 @@ CHECKS = {
     "C17": ("DESIGN.md 2/C17",
             "Lock-step exploration: every refinement-decision history (BFS, scripted estimator, real loop) and every uniform combination is "
             "executed on 6 real instances (reuse on/off x size threshold 200/0/8 via the guarded hook) plus natural-size grids (>=200 "
-            "points) without the hook, grids without and with boundary points, and parameter sweeps (sequences of problems solved with fresh objects in one process); surpluses, scheme and interpolated densities compared with "
+            "points) without the hook, grids without and with boundary points, three-dimensional dimension-wise grids, and parameter sweeps (sequences of problems solved with fresh objects in one process); surpluses, scheme and interpolated densities compared with "
             "the reuse-off instance.",
             "Known finding: the right-hand-side reuse branch is not transparent. Hook: GridOperation._verif_threshold.",
             "explicit-state BFS over decision histories, differential (lock-step) oracle"),
     "C18": ("DESIGN.md 2/C18",
-            "Every operation sequence of depth 3..4 (thorough 4..5) over a 31-operation alphabet (scalings with/without override, factors incl. negative and per-dimension, "
+            "Every operation sequence of depth 3..4 (thorough 4..5) over a 35-operation alphabet (scalings with/without override, factors incl. negative and per-dimension, "
             "shifts, revert, explorer-chosen shuffle permutations, boundary move, the three splits followed by concatenation, in-range / "
-            "duplicate / out-of-range removals, concatenation with a differently scaled copy, operations on derived objects = copies and "
-            "split pieces) on 6 initial DataSets incl. empty, single, ties, one-dimensional and integer dtype; lock-step with a reference model of the labelled multiset and the scaling attributes.",
-            "Known finding: concatenate never refuses different scalings. Exceptions on empty sets count as refusals.",
+            "duplicate / out-of-range removals, refused wrong-length factors and shifts, concatenation with a differently scaled copy, operations on derived objects = copies and "
+            "split pieces) on 6 initial DataSets incl. empty, single, ties, one-dimensional and integer dtype; lock-step with a reference model of the labelled multiset, the scaling attributes and the composed affine map since the first scaling (revert must restore every surviving sample).",
+            "Known findings: concatenate never refuses different scalings; revert_scaling is wrong once the set no longer contains the original minimum of a dimension. Exceptions on empty sets count as refusals.",
             "exhaustive operation-sequence enumeration with reference model"),
     "C19": ("DESIGN.md 2/C19",
             "Complete lattice of learning configurations (3 labelled data sets incl. unlabelled samples and 1D x split percentage x even/uneven "
             "x standard/dimension-wise x explorer-chosen shuffle permutations) and on each learned object ALL call sequences of length 2 "
             "(thorough 3) over {__call__, test_data} x {inside, partly outside, entirely outside, with unlabelled, the classifier's own testing "
             "data as returned / reverted}; arg-max reference (densities recomputed from the surpluses) under "
-            "the learning-time scaling, removal rule, recomputed summary, earlier results unchanged.",
+            "the learning-time scaling, removal rule, recomputed summary of every test_data call and of evaluate() over all stored testing data after every test step, earlier results unchanged.",
             "Ties within 1e-9 accept either class; the learned classifiers themselves are taken from the object (their correctness is C16/C17).",
             "exhaustive configuration lattice + operation-sequence enumeration with reference model"),
     "C20": ("DESIGN.md 2/C20",
